@@ -20,6 +20,7 @@ EXPLANATION_ADDED2 = " R7 also requires the Acknowledge's queue-send failure to 
 EXPLANATION = EXPLANATION + " Added while testing against seeded changes: " + EXPLANATION_ADDED + EXPLANATION_ADDED2
 EXPLANATION = EXPLANATION + ' Round 10: R8 also requires the stream-buffer and retry-count setters to store their argument.'
 EXPLANATION = EXPLANATION + ' Rounds 12-13: R6 inherits the exactness clauses of C03.R3/R4 (initial credit = advertised window itself).'
+EXPLANATION = EXPLANATION + " Rounds 14-15: R5 requires the Connect arguments to be the caller's host / port themselves; (S9) constructor exactness."
 ASSUMPTIONS = ["rand produces arbitrary u32 values (collisions possible); RwLock write guard is exclusive"]
 NOT_DECIDED = "simultaneous-open races between the two endpoints (interleaving dependent)"
 THOROUGH_CONFIGS = ["mux-nodefault", "mux-nohash"]
